@@ -12,8 +12,8 @@
 EXTENDS Vector
 Q == "{34}"
 VName(ver) == "CVSS" \o ver
-\* machine state: pc, index of the next field, metrics seen so far, outcome
-MInit(ver, s) == [pc |-> "empty", ver |-> ver, s |-> s, k |-> 1, seen |-> {}, cls |-> "", msg |-> ""]
+\* machine state: pc, index of the next field, metrics seen so far (set, and <<metric, value>> in input order), outcome
+MInit(ver, s) == [pc |-> "empty", ver |-> ver, s |-> s, k |-> 1, seen |-> {}, got |-> <<>>, cls |-> "", msg |-> ""]
 Fail(st, c, m) == [st EXCEPT !.pc = "done", !.cls = c, !.msg = m]
 FieldsM(st) == Split(DropPrefix(st.s, PrefixLen(st.ver, st.s)), "/")
 RECURSIVE MissingList(_,_,_)
@@ -42,11 +42,11 @@ MStep(st) ==
                        THEN (IF dup THEN Fail(st, "malformed", "Duplicate metric " \o Q \o m \o Q)
                              ELSE IF ~known THEN Fail(st, "malformed", "Invalid metric key in CVSS4 vector " \o Q \o f \o Q)
                              ELSE IF ~legal THEN Fail(st, "malformed", "Invalid metric value in CVSS4 vector " \o Q \o f \o Q)
-                             ELSE [st EXCEPT !.k = st.k + 1, !.seen = st.seen \cup {m}])
+                             ELSE [st EXCEPT !.k = st.k + 1, !.seen = st.seen \cup {m}, !.got = Append(st.got, <<m, v>>)])
                        ELSE (IF ~known THEN Fail(st, "malformed", "Unknown metric " \o Q \o m \o Q \o " in field " \o Q \o f \o Q)
                              ELSE IF ~legal THEN Fail(st, "malformed", "Unknown value " \o Q \o v \o Q \o " in field " \o Q \o f \o Q)
                              ELSE IF dup THEN Fail(st, "malformed", "Duplicate metric " \o Q \o m \o Q)
-                             ELSE [st EXCEPT !.k = st.k + 1, !.seen = st.seen \cup {m}])
+                             ELSE [st EXCEPT !.k = st.k + 1, !.seen = st.seen \cup {m}, !.got = Append(st.got, <<m, v>>)])
      [] st.pc = "mandatory" ->
           LET miss == MissingList(MandOf(ver), st.seen, 1) IN
           IF miss # <<>> THEN Fail(st, "mandatory", "Missing mandatory metrics " \o Q \o Join(miss, ", ") \o Q)
